@@ -62,6 +62,10 @@ func c16Times(kind string, net, future int, storeHi int, age time.Duration, seed
 			}
 		case "young":
 			step = time.Second
+		case "bursty": // full block time in the old part, a fast burst near the head: every spacing <= block time
+			if i >= net-40 {
+				step = time.Second
+			}
 		}
 		if i == storeHi && age > 0 { // the store head is `age` older than its successor
 			step += age
@@ -74,12 +78,12 @@ func c16Times(kind string, net, future int, storeHi int, age time.Duration, seed
 func TestC16(t *testing.T) {
 	r := mon.Open(t, "C16")
 	mon.Register(r, "tail", c16Run)
-	windows := []int64{0, 1, 50, int64(10 * time.Minute), int64(time.Hour), int64(337 * time.Hour)}
+	windows := []int64{0, 1, 50, int64(5 * time.Minute), int64(10 * time.Minute), int64(15 * time.Minute), int64(time.Hour), int64(337 * time.Hour)}
 	bts := []int64{0, 1, int64(c16Spacing)}
 	tps := []int64{int64(time.Hour), int64(336 * time.Hour)}
 	fromHs := []string{"", "", "", "one", "below-tail", "mid", "store-head", "above-store-head", "net-head"}
 	fromHashes := []string{"", "", "", "", "tail", "mid", "head"}
-	chains := []string{"regular", "dense", "irregular", "halted", "young"}
+	chains := []string{"regular", "dense", "irregular", "halted", "young", "bursty"}
 	rng := r.Rand("c16")
 	pick := func() c16Cfg {
 		for {
@@ -100,6 +104,11 @@ func TestC16(t *testing.T) {
 						p.StoreLo, p.StoreHi = 0, 0
 					}
 					mon.Emit(r, "tail", p, "tail")
+					if !empty {
+						// the store head is the network head's predecessor (no extra age): retention is decidable
+						p2 := c16P{Chain: ch, StoreLo: 5, StoreHi: 229, Net: 230, AgeS: 0, Gossip: 3, Cfgs: []c16Cfg{{WindowNs: w, BTNs: bt, TPNs: tps[1]}, {WindowNs: w, BTNs: bt, TPNs: tps[1]}}}
+						mon.Emit(r, "tail", p2, "tail")
+					}
 				}
 			}
 		}
@@ -146,7 +155,7 @@ func c16Run(c *mon.Case, p c16P) {
 			return out, nil, true
 		}
 		spacedWithinBT := func(bt int64) bool {
-			return bt > 0 && (p.Chain == "regular" && bt >= int64(c16Spacing) || p.Chain == "dense" && bt >= int64(c16Spacing/2) || p.Chain == "young" && bt >= int64(time.Second)) && p.AgeS == 0
+			return bt > 0 && ((p.Chain == "regular" || p.Chain == "bursty") && bt >= int64(c16Spacing) || p.Chain == "dense" && bt >= int64(c16Spacing/2) || p.Chain == "young" && bt >= int64(time.Second)) && p.AgeS == 0
 		}
 		var classes []string
 		for run, cfg := range p.Cfgs {
